@@ -181,11 +181,20 @@ Applicable(sc) ==
     \* (then I_bg resp. the efficiency-weighted I_sig have non-zero first and second derivatives: the terms
     \* g_int_bg, h_int_bg of CodeGradCfit / CodeHessCfit, zero for parameter-free columns, are exercised)
     /\ (sc.shape # "columns" => sc.kind \in {"cfit", "cfit_ext"})
+    \* a detector-resolution model (every event a weighted group of `resolution` consecutive samples,
+    \* `resolution_size` in the data configuration) is taken by Model and Model_cfit (config_loader._get_model)
+    /\ (sc.resolution = 2 => sc.kind \in {"default", "extended", "cfit"} /\ sc.shape = "columns")
 Scenarios ==
     {sc \in [kind : ScnKinds, floating : {"couplings", "mass", "mass_width"},
              bounds : {"none", "coupling_two", "coupling_lower", "coupling_upper", "mass_two", "width_lower", "mixed"},
              share : {"none", "tie"}, constr : {"none", "head", "two_heads", "tied"}, batch : {"single", "ragged"},
-             shape : {"columns", "bg_param", "eff_param", "bg_eff_param"}] :
+             shape : {"columns", "bg_param", "eff_param", "bg_eff_param"},
+             resolution : {1, 2},
+             \* the calls made on ONE likelihood object: "single" = value, gradient, Hessian and one Hessian-vector
+             \* product at one point; "sequence" = the same at the points P0, P1, P0 again, with Hessian-vector products
+             \* along d1, d2, d1 at each point (state kept between calls -- the cached direction variables of
+             \* grad_hessp_batch, cached integrals, compiled functions -- must not leak from one call into the next)
+             calls : {"single", "sequence"}] :
         Applicable(sc)}
 
 
